@@ -134,9 +134,10 @@ var Methods = []Method{
 	{Name: "/bound/"},        // 22
 	{Name: "/boun"},          // 23
 	{Name: "//bound"},        // 24
-	{Name: "noslash/Bound", Cmd: "BOUND", Path: "key"}, // 25: listed exactly like this
-	{Name: "noslash/Bind", Cmd: "BIND", Path: "key"},   // 26
-	{Name: "/noslash/Bind"},                            // 27: not listed
+	{Name: "noslash/Bound", Cmd: "BOUND", Path: "key"},             // 25: listed exactly like this
+	{Name: "noslash/Bind", Cmd: "BIND", Path: "key"},               // 26
+	{Name: "/noslash/Bind"},                                        // 27: not listed
+	{Name: "/bindsubs", Cmd: "BIND", Path: "subs.key", List: true}, // 28: the keys of the reply are spread over a repeated message field
 }
 
 // Msg is the request/response message shape used by the pool histories.
@@ -145,6 +146,7 @@ type Msg struct {
 	Keys []string
 	Num  int32
 	Sub  *Msg
+	Subs []*Msg
 }
 
 // EmbMsg embeds a (nil) message pointer: its Key / Keys / Sub fields are promoted from it.
